@@ -819,9 +819,14 @@ fn verify_stream(c: &mut Case, bytes: &[u8], sch: &Sch, want: &[LBatch], rows: &
     c.evals(1);
     // 3. StreamDecoder
     let chunked = plan.chunked;
-    // (fixed finding `decoder-dense-union-align`: the decoder panicked on a dense union whose offsets buffer sat at an odd
-    // address inside a pushed buffer; all chunk sizes are generated again)
-    let sizes: &[usize] = &[1, 3, 4, 7, 8, 64, 100, 1000];
+    // known finding `decoder-dense-union-align` (repro_decoder_union_align): the decoder turns the offsets buffer of a dense
+    // union into a ScalarBuffer<i32> without re-aligning it and panics when a message body sits at an odd address inside a
+    // pushed buffer; with such a column only chunk sizes that keep every body 8-byte aligned are generated
+    let dense = sch.fields.iter().any(|f| has_kind(&f.ty, "DenseUnion"));
+    let sizes: &[usize] = if dense && !c.strict { &[8, 24, 8, 64, 8, 64, 104, 1000] } else { &[1, 3, 4, 7, 8, 64, 100, 1000] };
+    if dense && !c.strict && chunked {
+        c.exclude("decoder-dense-union-align");
+    }
     let chunks: Vec<usize> = if chunked { plan.chunk_picks.iter().map(|i| sizes[*i as usize]).collect() } else { vec![] };
     let ra = !chunked && wo.align == 64 && wo.comp == 0 && plan.want_ra;
     let (ds, dgot) = no_panic("stream:decoder", || read_stream_decoder(bytes, &chunks, ra))?.map_err(|e| arrow_err(if ra { "stream:decoder-err:require_alignment" } else { "stream:decoder-err" }, "StreamDecoder", e))?;
